@@ -511,6 +511,12 @@ _F = {"cases": cases, "run_sides": run_sides, "same": same, "oracle": oracle, "c
       "nontrivial_key": nontrivial_key}
 
 
+def _qblock(qtexts):
+    """the queries of one run, followed by one planner probe per query (same quiescent state): whether the ORDER BY
+    zone pre-selection (RLTE) is active for that query decides whether a wrong slice is the known finding"""
+    return [("cmd", q) for q in qtexts] + [("raw", "!rlte " + q) for q in qtexts]
+
+
 def _eng_cases(rng, tier):
     out = []
     n = 14 if tier == "quick" else 400
@@ -541,8 +547,8 @@ def _eng_cases(rng, tier):
         # run 1 on the generated (mixed) layout, run 2 once everything is in segments: the known class
         # OrderedLimitWrongSlice is a defect of the top-k zone selection over FLUSHED data; a wrong slice that
         # disappears after the flush is a different defect and is reported
-        script += [("quiesce",), ("cmd", "QUERY t")] + [("cmd", q) for q in qtexts]
-        script += [("cmd", "FLUSH"), ("quiesce",), ("cmd", "QUERY t")] + [("cmd", q) for q in qtexts]
+        script += [("quiesce",), ("cmd", "QUERY t")] + _qblock(qtexts)
+        script += [("cmd", "FLUSH"), ("quiesce",), ("cmd", "QUERY t")] + _qblock(qtexts)
         out.append({"kind": "engine", "line": "", "cfg": cfg, "script": [list(x) for x in script], "evs": evs, "qs": qs, "qtexts": qtexts,
                     "show": f"engine {cfg}: {total} events, " + "; ".join(qtexts)})
     # targeted: ordering by other columns (context_id, g) with a rotated memtable still waiting for its flush
@@ -568,8 +574,8 @@ def _eng_cases(rng, tier):
         for n_ in (1, 3, rng.range(2, 8)):
             for desc in (False, True):
                 qs.append(("ordf", desc, n_, 0, field)); qtexts.append(f"QUERY t ORDER BY {field}{' DESC' if desc else ''} LIMIT {n_}")
-        script += [("cmd", "QUERY t")] + [("cmd", q) for q in qtexts]
-        script += [("raw", "!release fw_begin"), ("cmd", "FLUSH"), ("quiesce",), ("cmd", "QUERY t")] + [("cmd", q) for q in qtexts]
+        script += [("cmd", "QUERY t")] + _qblock(qtexts)
+        script += [("raw", "!release fw_begin"), ("cmd", "FLUSH"), ("quiesce",), ("cmd", "QUERY t")] + _qblock(qtexts)
         out.append({"kind": "engine", "line": "", "cfg": cfg, "script": [list(x) for x in script], "evs": evs, "qs": qs, "qtexts": qtexts,
                     "show": f"engine order-by-{field}-with-passive {cfg}: {len(evs)} events, " + "; ".join(qtexts)})
     # targeted: deep pagination over one shard with thousands of flushed rows
@@ -584,8 +590,8 @@ def _eng_cases(rng, tier):
         qs, qtexts = [], []
         for (n_, m_) in ((100, 1100), (50, rng.range(100, 4000)), (1200, 0), (10, 4300)):
             qs.append(("ord", False, n_, m_, None)); qtexts.append(f"QUERY t ORDER BY k LIMIT {n_} OFFSET {m_}")
-        script += [("cmd", "QUERY t")] + [("cmd", q) for q in qtexts]
-        script += [("cmd", "FLUSH"), ("quiesce",), ("cmd", "QUERY t")] + [("cmd", q) for q in qtexts]
+        script += [("cmd", "QUERY t")] + _qblock(qtexts)
+        script += [("cmd", "FLUSH"), ("quiesce",), ("cmd", "QUERY t")] + _qblock(qtexts)
         out.append({"kind": "engine", "line": "", "cfg": cfg, "script": [list(x) for x in script], "evs": evs, "qs": qs, "qtexts": qtexts,
                     "show": f"engine deep-pagination {cfg}: {len(evs)} events, " + "; ".join(qtexts)})
     # targeted: every shard has flushed segments, then the smallest (largest) keys arrive for ONE context and stay
@@ -609,8 +615,8 @@ def _eng_cases(rng, tier):
         qs, qtexts = [], []
         for n_ in (1, m, m + 1):
             qs.append(("ord", not low, n_, 0, None)); qtexts.append(f"QUERY t ORDER BY k{'' if low else ' DESC'} LIMIT {n_}")
-        script += [("quiesce",), ("cmd", "QUERY t")] + [("cmd", q) for q in qtexts]
-        script += [("cmd", "FLUSH"), ("quiesce",), ("cmd", "QUERY t")] + [("cmd", q) for q in qtexts]
+        script += [("quiesce",), ("cmd", "QUERY t")] + _qblock(qtexts)
+        script += [("cmd", "FLUSH"), ("quiesce",), ("cmd", "QUERY t")] + _qblock(qtexts)
         out.append({"kind": "engine", "line": "", "cfg": cfg, "script": [list(x) for x in script], "evs": evs, "qs": qs, "qtexts": qtexts,
                     "show": f"engine topk-unflushed-shard {cfg}: {len(evs)} events, " + "; ".join(qtexts)})
     return out
@@ -699,6 +705,22 @@ def _eng_failures(c, impl):
     return out
 
 
+def _eng_plans(c, impl):
+    """{(run, j): planner probe answer} for scripts that carry the probes (None = pre-selection not active)"""
+    n = len(c["qs"])
+    res = impl["res"]
+    bases = [i for i, st in enumerate(c["script"]) if st[0] == "cmd" and st[1] == "QUERY t"]
+    plans = {}
+    if len(bases) < 2:
+        return plans
+    for run, b in ((1, bases[-2]), (2, bases[-1])):
+        for j in range(n):
+            i = b + 1 + n + j
+            if i < len(res) and isinstance(res[i], dict) and "rlte" in res[i]:
+                plans[(run, j)] = res[i]["rlte"]
+    return plans
+
+
 def _eng_oracle(c, impl):
     if not impl.get("ok"):
         return "engine harness: " + str(impl.get("err"))
@@ -718,6 +740,25 @@ def classify(c, impl):
         if not f:
             return None
         flushed = {j: keys for (run, j, w, keys) in f if run == 2}
+        plans = _eng_plans(c, impl)
+        if plans:
+            # The known finding is the unsound ORDER BY zone pre-selection (RLTE planner: it estimates from the ladders
+            # which zones can hold the first 10*(n+m) rows and scans only those). A wrong slice is that finding only if
+            # the planner probe says the pre-selection is ACTIVE for this very query in this very state, the answer
+            # is sorted, has the right length and consists of stored rows; with the pre-selection inactive (no plan:
+            # the full-scan path) any wrong slice is a violation.
+            bases = [i for i, st in enumerate(c["script"]) if st[0] == "cmd" and st[1] == "QUERY t"]
+            for (run, j, w, keys) in f:
+                spec = c["qs"][j]
+                if "ORDER BY k" not in w or spec[0] != "ord" or not plans.get((run, j)):
+                    return None
+                base_rows = impl["res"][bases[-2] if run == 1 else bases[-1]]["rows"]
+                pool = [x["k"] for x in base_rows if spec[4] is None or x["k"] >= spec[4]]
+                want = len(pool[spec[3]:] if spec[2] is None else pool[spec[3]:spec[3] + spec[2]])
+                import collections as _c
+                if keys != sorted(keys, reverse=bool(spec[1])) or len(keys) > want or (_c.Counter(keys) - _c.Counter(pool)):
+                    return None
+            return "OrderedLimitWrongSlice"
         for (run, j, w, keys) in f:
             if "ORDER BY" not in w:
                 return None
